@@ -1049,6 +1049,9 @@ class OptionStore:
         if key in self.options:
             old_value = opt.value
             opt.set_value(new_value)
+            # An option that stops yielding to its parent has changed, even if
+            # the value it holds itself stays the same.
+            changed |= opt.yielding
             opt.yielding = False
         else:
             assert key.subproject is not None
